@@ -1,10 +1,13 @@
 /* C15 harness — config language: evaluation matches the reference, deterministic, never crashes.
  *
  * Lines written (one case per line; everything after " | " is the observation of the REAL compiler/evaluator):
- *   P <id> <ast tokens…> | min=<r> full=<r> again=<r>
+ *   P <id> <ast tokens…> | min=<r> full=<r> again=<r> same=<r> lits=<text>:<bits>,…
  *        a generated AST, printed (a) with the minimal parentheses the GENERATED precedence table requires,
  *        (b) fully parenthesised, each compiled with ConfigCompiler::CompileText and evaluated in a fresh
- *        ScriptFrame; (c) the minimal text compiled and evaluated a second time (determinism).
+ *        ScriptFrame; (c) the minimal text compiled and evaluated a second time (determinism); same = the compiled expression of
+ *        (a) evaluated a SECOND time in a fresh frame (an Expression must not keep state between evaluations); lits = every
+ *        distinct number/duration literal of the program with the binary64 the REAL lexer makes of it (recomputed on every run,
+ *        also in ops mode: the bits on the operation line are informative only).
  *        r = v:<canonical value> | e:<kind>[:<hex message>] | syntax@L:C:<hex message> | crash:sig=N | timeout
  *   X <id> <hex program text> | ok | err:syntax@L:C | err:script | err:std | crash:sig=N | timeout
  *        hostile stream: mutated program texts and arbitrary byte strings; only "returns or throws" is required.
@@ -129,7 +132,15 @@ static Node Parse(Tok& tk, int depth = 0)
 	std::string t = tk.next();
 	if (tk.bad || depth > 20000) { tk.bad = true; return N0("null"); }
 	auto P = [&]() { return Parse(tk, depth + 1); };
-	if (t == "n") { Node n = N0("n"); n.bits = strtoull(tk.next().c_str(), nullptr, 16); n.s = tk.next(); return n; }
+	if (t == "n") {
+		/* the bits on the line are NOT trusted (a corpus line may have been written by another build): the literal is lexed again */
+		tk.next();
+		std::string text = tk.next();
+		bool ok = !text.empty() && isdigit((unsigned char)text[0]);
+		for (char ch : text) if (!isalnum((unsigned char)ch) && ch != '.') ok = false;
+		if (!ok) { tk.bad = true; return N0("null"); }
+		return Num(text);
+	}
 	if (t == "s") return N0("s", UnHex(tk.next()));
 	if (t == "v") return N0("v", tk.next());
 	if (t == "op" || t == "set") { std::string s = OpSym(tk.next(), t == "set"); if (s == "?") tk.bad = true; Node a = P(); Node b = P(); return N2(t, a, b, s); }
@@ -483,8 +494,30 @@ static void CleanGlobals()
 }
 
 /* compile + evaluate in a fresh frame; never throws */
-static std::string RunText(const std::string& text, bool hostile)
+static std::string EvalOnce(Expression& expr, bool isSyntax, bool hostile)
 {
+	std::string r;
+	try {
+		ScriptFrame frame(true);
+		Value v = expr.Evaluate(frame);
+		r = hostile ? "ok" : "v:" + Canon(v);
+	} catch (const ScriptError& ex) {
+		if (isSyntax) {
+			DebugInfo di = ex.GetDebugInfo();
+			char b[64]; snprintf(b, sizeof b, "%s@%d:%d", (!g_CapMsg.empty() && g_CapMsg == ex.what()) ? "syntaxcap" : "syntax", di.FirstLine, di.FirstColumn);
+			r = hostile ? std::string("err:") + b : std::string(b);
+		} else
+			r = hostile ? "err:script" : ErrKind(ex.what());
+	} catch (const std::exception& ex) {
+		r = hostile ? "err:std" : ErrKind(ex.what());
+	}
+	CleanGlobals();
+	return r;
+}
+
+static std::string RunText(const std::string& text, bool hostile, std::string *same = nullptr)
+{
+	if (same) *same = "";
 	CleanGlobals();
 	std::unique_ptr<Expression> expr;
 	try {
@@ -499,22 +532,9 @@ static std::string RunText(const std::string& text, bool hostile)
 	if (!expr) return hostile ? "ok" : "v:null";
 	/* configcompiler.cpp:244-250: a syntax error is returned as a ThrowExpression carrying the message and location */
 	bool isSyntax = dynamic_cast<ThrowExpression *>(expr.get()) != nullptr;
-	std::string r;
-	try {
-		ScriptFrame frame(true);
-		Value v = expr->Evaluate(frame);
-		r = hostile ? "ok" : "v:" + Canon(v);
-	} catch (const ScriptError& ex) {
-		if (isSyntax) {
-			DebugInfo di = ex.GetDebugInfo();
-			char b[64]; snprintf(b, sizeof b, "%s@%d:%d", (!g_CapMsg.empty() && g_CapMsg == ex.what()) ? "syntaxcap" : "syntax", di.FirstLine, di.FirstColumn);
-			r = hostile ? std::string("err:") + b : std::string(b);
-		} else
-			r = hostile ? "err:script" : ErrKind(ex.what());
-	} catch (const std::exception& ex) {
-		r = hostile ? "err:std" : ErrKind(ex.what());
-	}
-	CleanGlobals();
+	std::string r = EvalOnce(*expr, isSyntax, hostile);
+	/* the SAME compiled expression once more, in a fresh frame, with the user globals removed: the same environment */
+	if (same) *same = EvalOnce(*expr, isSyntax, hostile);
 	return r;
 }
 
@@ -538,9 +558,20 @@ struct Gen {
 	Node NumLit()
 	{
 		static const std::vector<std::string> pool = { "0", "1", "2", "3", "4", "5", "7", "8", "10", "12", "16", "31", "32", "100", "255",
-			"0.5", "1.5", "2.25", "0.1", "0.25", "3.75", "1000000", "65536", "2147483647", "2147483648", "4294967296", "1m", "2h", "30s", "1d", "500ms", "1.5m" };
+			"0.5", "1.5", "2.25", "0.1", "0.25", "3.75", "1000000", "65536", "2147483647", "2147483648", "4294967296", "1m", "2h", "30s", "1d", "500ms", "1.5m",
+			"1ms", "2.5ms", "1000ms", "1s", "0.5s", "90s", "5m", "0.1m", "1h", "1.5h", "0.25h", "24h", "7d", "0.5d", "1.25d", "0ms", "0d" };
 		if (pm(700)) return Num(std::to_string(rng.below(10)));
+		if (pm(250)) return DurLit();
 		return Num(pick(pool));
+	}
+
+	/* a number or duration literal drawn from the whole literal grammar `D+(.D+)?(ms|s|m|h|d)?` */
+	Node DurLit()
+	{
+		static const std::vector<std::string> suf = { "", "ms", "s", "m", "h", "d" };
+		std::string t = std::to_string(rng.below(pm(500) ? 10 : (pm(500) ? 100 : 100000)));
+		if (pm(400)) { t += "."; int nd = 1 + rng.below(pm(800) ? 3 : 9); for (int i = 0; i < nd; i++) t += (char)('0' + rng.below(10)); }
+		return Num(t + suf[rng.below(suf.size())]);
 	}
 
 	Node StrLit()
@@ -1148,6 +1179,300 @@ struct Gen {
 		return NL("blk", ks);
 	}
 
+
+	/* ---------------------------------------------------------------- flow control from every position (family `flow`) */
+
+	Node IfStmt(Node cond, std::vector<Node> then) { Node c = N0("if"); c.k.push_back(cond); c.k.push_back(NL("blk", then)); return c; }
+	Node Add(const std::string& arr, Node v) { return Method(N0("v", arr), "add", { v }); }
+	Node Eq(const std::string& x, int k) { return N2("op", N0("v", x), Num(std::to_string(k)), "=="); }
+
+	/* try { [if (x == A) throw] [if (x == B) <ctl>] mark } except { mark; [if (x == C)] <ctl> }  — each part optional */
+	Node TryWithFlow(const std::string& x, const std::string& r, int n, const std::vector<std::string>& ctls, bool inFunction)
+	{
+		auto ctl = [&](const std::string& what) -> Node {
+			if (what == "ret") return N1("ret", N2("op", N0("s", "R"), N0("v", x), "+"));
+			return N0(what);
+		};
+		std::vector<Node> tb, hb;
+		int a = rng.below(n), b = rng.below(n), c = rng.below(n);
+		if (pm(850)) tb.push_back(IfStmt(pm(700) ? Eq(x, a) : N2("op", N0("v", x), Num(std::to_string(a)), ">="), { pm(600) ? N1("throw", N0("s", "E")) : Thrower() }));
+		if (pm(400)) tb.push_back(IfStmt(Eq(x, b), { ctl(pick(ctls)) }));
+		tb.push_back(Add(r, N2("op", N0("s", "t"), N0("v", x), "+")));
+		hb.push_back(Add(r, N2("op", N0("s", "h"), N0("v", x), "+")));
+		if (pm(850)) {
+			Node k = ctl(pick(ctls));
+			if (pm(500)) hb.push_back(k);
+			else if (pm(500)) hb.push_back(IfStmt(pm(600) ? Eq(x, c) : N0("b1"), { k }));
+			else hb.push_back(N2("try", NL("blk", { Thrower() }), NL("blk", { k })));        /* from a nested handler */
+		}
+		(void)inFunction;
+		return N2("try", NL("blk", tb), NL("blk", hb));
+	}
+
+	Node Flow()
+	{
+		std::vector<Node> ks;
+		ks.push_back(N1("var", NL("arr", {}), "r"));
+		int pieces = 1 + rng.below(3);
+		for (int p = 0; p < pieces; p++) {
+			int n = 2 + rng.below(4);
+			switch (rng.below(5)) {
+			case 0: {
+				/* function: return from try body / handler; statements after the try/except must not run */
+				std::string f = "f" + std::to_string(p);
+				Node fn = N0("fn"); fn.names = { "x" }; fn.uses = { "r" };
+				std::vector<Node> body;
+				body.push_back(TryWithFlow("x", "r", n, { "ret" }, true));
+				body.push_back(Add("r", N2("op", N0("s", "a"), N0("v", "x"), "+")));
+				body.push_back(pm(700) ? N1("ret", N2("op", N0("s", "end"), N0("v", "x"), "+")) : N2("op", N0("s", "val"), N0("v", "x"), "+"));
+				fn.k.push_back(NL("blk", body));
+				ks.push_back(N1("var", fn, f));
+				for (int i = 0; i < n; i++) ks.push_back(Add("r", NL("call", { N0("v", f), Num(std::to_string(i)) })));
+				break;
+			}
+			case 1: case 2: {
+				/* for / while loop: break / continue from try body / handler; the rest of the body and the later iterations */
+				std::string i = "i" + std::to_string(p);
+				std::vector<Node> body;
+				bool isWhile = rng.coin();
+				if (isWhile) body.push_back(N2("set", N0("v", i), Num("1"), "+="));
+				body.push_back(TryWithFlow(i, "r", n + 1, { "brk", "cont" }, false));
+				body.push_back(Add("r", N2("op", N0("s", "a"), N0("v", i), "+")));
+				if (isWhile) {
+					ks.push_back(N1("var", N1("neg", Num("1")), i));
+					ks.push_back(N2("while", N2("op", N0("v", i), Num(std::to_string(n)), "<"), NL("blk", body)));
+				} else if (pm(300)) {
+					/* over a dictionary */
+					Node d = N0("dict");
+					for (int j = 0; j < n; j++) d.k.push_back(N2("set", N0("v", std::string(1, 'a' + j)), Num(std::to_string(j)), "="));
+					Node f = N0("for"); f.names = { "k" + std::to_string(p), i };
+					f.k.push_back(d); f.k.push_back(NL("blk", body));
+					ks.push_back(f);
+				} else {
+					Node f = N0("for"); f.names = { i, "" };
+					f.k.push_back(Sys("range", { Num(std::to_string(n)) })); f.k.push_back(NL("blk", body));
+					ks.push_back(f);
+				}
+				ks.push_back(Add("r", N0("s", "L")));
+				break;
+			}
+			case 3: {
+				/* nested loops: break / continue of the inner loop (from a handler) leave the outer loop alone */
+				std::string i = "i" + std::to_string(p), j = "j" + std::to_string(p);
+				std::vector<Node> inner = { TryWithFlow(j, "r", n, { "brk", "cont" }, false), Add("r", N2("op", N2("op", N0("v", i), Num("10"), "*"), N0("v", j), "+")) };
+				Node fi = N0("for"); fi.names = { j, "" }; fi.k.push_back(Sys("range", { Num(std::to_string(n)) })); fi.k.push_back(NL("blk", inner));
+				std::vector<Node> outer = { fi, Add("r", N2("op", N0("s", "o"), N0("v", i), "+")) };
+				if (pm(400)) outer.insert(outer.begin(), TryWithFlow(i, "r", 3, { "brk", "cont" }, false));
+				Node fo = N0("for"); fo.names = { i, "" }; fo.k.push_back(Sys("range", { Num(std::to_string(2 + rng.below(2))) })); fo.k.push_back(NL("blk", outer));
+				ks.push_back(fo);
+				break;
+			}
+			default: {
+				/* a function called inside a loop: its `return` (from a handler) ends the function, not the loop; loop inside a function:
+				 * `return` from a handler inside the loop ends loop AND function */
+				std::string f = "g" + std::to_string(p) + "f", i = "i" + std::to_string(p);
+				Node fn = N0("fn"); fn.names = { "x" }; fn.uses = { "r" };
+				std::vector<Node> lbody = { TryWithFlow("y", "r", n, { "ret", "brk", "cont" }, true), Add("r", N2("op", N0("s", "b"), N0("v", "y"), "+")) };
+				Node fl = N0("for"); fl.names = { "y", "" }; fl.k.push_back(Sys("range", { N0("v", "x") })); fl.k.push_back(NL("blk", lbody));
+				fn.k.push_back(NL("blk", { fl, N1("ret", N2("op", N0("s", "end"), N0("v", "x"), "+")) }));
+				ks.push_back(N1("var", fn, f));
+				Node fo = N0("for"); fo.names = { i, "" }; fo.k.push_back(Sys("range", { Num(std::to_string(n)) }));
+				fo.k.push_back(NL("blk", { Add("r", NL("call", { N0("v", f), N0("v", i) })) }));
+				ks.push_back(fo);
+				break;
+			}
+			}
+		}
+		ks.push_back(N0("v", "r"));
+		return NL("blk", ks);
+	}
+
+	/* ---------------------------------------------------------------- literals create NEW containers (family `freshlit`) */
+
+	Node ConstLiteral(bool& isDict)
+	{
+		isDict = pm(300);
+		if (isDict) {
+			Node d = N0("dict");
+			int n = rng.below(3);
+			for (int j = 0; j < n; j++) d.k.push_back(N2("set", N0("v", std::string(1, 'a' + j)), pm(700) ? Num(std::to_string(j)) : N0("s", "s"), "="));
+			return d;
+		}
+		std::vector<Node> ks;
+		int n = rng.below(4);
+		int kind = rng.below(4);
+		for (int j = 0; j < n; j++) {
+			if (kind == 0) ks.push_back(Num(std::to_string(1 + rng.below(9))));
+			else if (kind == 1) ks.push_back(N0("s", std::string(1, 'a' + rng.below(3))));
+			else if (kind == 2) ks.push_back(rng.coin() ? N0("null") : N0(rng.coin() ? "b1" : "b0"));
+			else ks.push_back(NL("arr", { Num(std::to_string(j)) }));          /* nested literal */
+		}
+		return NL("arr", ks);
+	}
+
+	std::vector<Node> MutateInPlace(const std::string& a, bool isDict, Node v)
+	{
+		std::vector<Node> out;
+		if (isDict) {
+			switch (rng.below(4)) {
+				case 0: out.push_back(N2("set", N1("dot", N0("v", a), "z"), v, "=")); break;
+				case 1: out.push_back(N2("set", N2("idx", N0("v", a), N0("s", "k")), v, "=")); break;
+				case 2: out.push_back(Method(N0("v", a), "set", { N0("s", "q"), v })); break;
+				default: out.push_back(Method(N0("v", a), "remove", { N0("s", "a") })); out.push_back(N2("set", N1("dot", N0("v", a), "n"), Method(N0("v", a), "len"), "=")); break;
+			}
+			return out;
+		}
+		switch (rng.below(6)) {
+			case 0: case 1: out.push_back(Method(N0("v", a), "add", { v })); break;
+			case 2: out.push_back(Method(N0("v", a), "add", { v })); out.push_back(Method(N0("v", a), "remove", { Num("0") })); break;
+			case 3: out.push_back(Method(N0("v", a), "add", { v })); out.push_back(N2("set", N2("idx", N0("v", a), Num("0")), N0("s", "w"), "=")); break;
+			case 4: out.push_back(Method(N0("v", a), "add", { Method(N0("v", a), "len") })); out.push_back(Method(N0("v", a), "set", { Num("0"), v })); break;
+			default: out.push_back(Method(N0("v", a), "add", { v })); out.push_back(Method(N0("v", a), "add", { Method(N0("v", a), "len") })); break;
+		}
+		return out;
+	}
+
+	Node FreshLit()
+	{
+		std::vector<Node> ks;
+		bool isDict = false;
+		Node lit = ConstLiteral(isDict);
+		int times = 2 + rng.below(3);
+		switch (rng.below(4)) {
+		case 0: {
+			/* in a function body called several times */
+			Node fn = N0("fn"); fn.names = { "x" };
+			std::vector<Node> body = { N1("var", lit, "a") };
+			for (auto& m : MutateInPlace("a", isDict, N0("v", "x"))) body.push_back(m);
+			body.push_back(N1("ret", N0("v", "a")));
+			fn.k.push_back(NL("blk", body));
+			ks.push_back(N1("var", fn, "f"));
+			std::vector<Node> calls;
+			for (int i = 0; i < times; i++) calls.push_back(NL("call", { N0("v", "f"), Num(std::to_string(i)) }));
+			ks.push_back(NL("arr", calls));
+			break;
+		}
+		case 1: {
+			/* in a loop body */
+			ks.push_back(N1("var", NL("arr", {}), "out"));
+			std::vector<Node> body = { N1("var", lit, "t") };
+			for (auto& m : MutateInPlace("t", isDict, N0("v", "i"))) body.push_back(m);
+			body.push_back(Add("out", N0("v", "t")));
+			if (rng.coin()) { Node f = N0("for"); f.names = { "i", "" }; f.k.push_back(Sys("range", { Num(std::to_string(times)) })); f.k.push_back(NL("blk", body)); ks.push_back(f); }
+			else {
+				body.insert(body.begin(), N2("set", N0("v", "i"), Num("1"), "+="));
+				ks.push_back(N1("var", Num("0"), "i"));
+				ks.push_back(N2("while", N2("op", N0("v", "i"), Num(std::to_string(times)), "<"), NL("blk", body)));
+			}
+			ks.push_back(N0("v", "out"));
+			break;
+		}
+		case 2: {
+			/* evaluated once per evaluation of the program: the second evaluation of the compiled expression (`same`) must agree;
+			 * two textually equal literals are two containers */
+			ks.push_back(N1("var", lit, "a"));
+			ks.push_back(N1("var", lit, "b"));
+			for (auto& m : MutateInPlace("a", isDict, Num("7"))) ks.push_back(m);
+			ks.push_back(NL("arr", { N0("v", "a"), N0("v", "b") }));
+			break;
+		}
+		default: {
+			/* as a default value built inside a lambda, and as an argument */
+			Node fn = N0("fn"); fn.names = { "acc", "x" };
+			std::vector<Node> body;
+			for (auto& m : MutateInPlace("acc", isDict, N0("v", "x"))) body.push_back(m);
+			body.push_back(N1("ret", N0("v", "acc")));
+			fn.k.push_back(NL("blk", body));
+			ks.push_back(N1("var", fn, "f"));
+			Node mk = N0("fn"); mk.k.push_back(lit);
+			if (isDict) mk.k[0] = NL("blk", { N1("ret", lit) });
+			ks.push_back(N1("var", mk, "mk"));
+			std::vector<Node> calls;
+			for (int i = 0; i < times; i++) calls.push_back(NL("call", { N0("v", "f"), NL("call", { N0("v", "mk") }), Num(std::to_string(i)) }));
+			ks.push_back(NL("arr", calls));
+			break;
+		}
+		}
+		return NL("blk", ks);
+	}
+
+	/* ---------------------------------------------------------------- number / duration literals (family `literal`) */
+	Node Literals()
+	{
+		static const std::vector<std::string> suf = { "", "ms", "s", "m", "h", "d" };
+		std::vector<Node> res;
+		/* every suffix at least once per program */
+		for (auto& sf : suf) {
+			std::string t = std::to_string(rng.below(pm(600) ? 60 : 5000));
+			if (pm(400)) { t += "."; int nd = 1 + rng.below(3); for (int i = 0; i < nd; i++) t += (char)('0' + rng.below(10)); }
+			res.push_back(Num(t + sf));
+		}
+		int extra = 1 + rng.below(4);
+		for (int i = 0; i < extra; i++) {
+			switch (rng.below(5)) {
+				case 0: { int k = 1 + rng.below(9); res.push_back(N2("op", Num(std::to_string(k * 1000) + "ms"), Num(std::to_string(k) + "s"), "==")); break; }
+				case 1: { int k = 1 + rng.below(9); res.push_back(N2("op", Num(std::to_string(k * 60) + "s"), Num(std::to_string(k) + "m"), "==")); break; }
+				case 2: { int k = 1 + rng.below(9); res.push_back(N2("op", Num(std::to_string(k * 24) + "h"), Num(std::to_string(k) + "d"), "==")); break; }
+				case 3: res.push_back(N2("op", DurLit(), DurLit(), pm(500) ? "+" : "*")); break;
+				default: res.push_back(N2("op", DurLit(), DurLit(), pm(500) ? "<" : ">=")); break;
+			}
+		}
+		return NL("blk", { NL("arr", res) });
+	}
+
+	/* ---------------------------------------------------------------- callbacks that modify the array being iterated (family `cbmut`) */
+	Node CbMut()
+	{
+		static const std::vector<std::string> methods = { "map", "filter", "any", "all" };
+		std::vector<Node> ks;
+		bool large = pm(30);      /* large: the vector is certain to be reallocated (and the old block unmapped) when the callback adds */
+		int n = large ? (pm(800) ? 3000 : 6000) : (int)rng.below(7);
+		if (large || pm(400)) ks.push_back(N1("var", Sys("range", { Num(std::to_string(n)) }), "a"));
+		else { std::vector<Node> es; for (int i = 0; i < n; i++) es.push_back(pm(800) ? Num(std::to_string(rng.below(9))) : N0("s", std::string(1, 'a' + rng.below(3)))); ks.push_back(N1("var", NL("arr", es), "a")); }
+		ks.push_back(N1("var", Num("0"), "calls"));
+		std::vector<Node> res;
+		int rounds = large ? 1 : 1 + rng.below(2);
+		for (int r = 0; r < rounds; r++) {
+			std::string m = pick(methods);
+			Node f = N0("fn"); f.names = { "x" }; f.uses = { "a" };
+			std::vector<Node> body;
+			int nm = 1 + rng.below(2);
+			for (int j = 0; j < nm; j++) {
+				Node mut;
+				switch (rng.below(large ? 3 : 7)) {
+					case 0: case 1: mut = Method(N0("v", "a"), "add", { pm(600) ? N0("v", "x") : Num(std::to_string(rng.below(9))) }); break;
+					case 2: mut = IfStmt(N2("op", Method(N0("v", "a"), "len"), Num("0"), ">"), { Method(N0("v", "a"), "remove", { Num("0") }) }); break;
+					case 3: mut = Method(N0("v", "a"), "clear"); break;
+					case 4: mut = IfStmt(N2("op", Method(N0("v", "a"), "len"), Num("0"), ">"), { Method(N0("v", "a"), "set", { Num("0"), N0("s", "w") }) }); break;
+					case 5: mut = N2("set", N2("idx", N0("v", "a"), Num(std::to_string(rng.below(8)))), N0("s", "i"), "="); break;
+					default: mut = Method(N0("v", "a"), "remove", { Num(std::to_string(rng.below(4))) }); break;     /* may raise: index out of bounds */
+				}
+				if (pm(300) && !large) mut = IfStmt(N2("op", N0("v", "x"), Num(std::to_string(rng.below(6))), pm(500) ? "==" : "<"), { mut });
+				body.push_back(mut);
+			}
+			Node rv;
+			if (m == "map") rv = pm(600) ? N0("v", "x") : NL("arr", { N0("v", "x"), Method(N0("v", "a"), "len") });
+			else if (m == "filter") rv = pm(500) ? N0("b1") : N2("op", Method(N0("v", "a"), "len"), Num(std::to_string(1 + rng.below(6))), "<");
+			else if (m == "any") rv = pm(700) ? N0("b0") : N2("op", Method(N0("v", "a"), "len"), Num(std::to_string(n + 2 + rng.below(4))), ">");
+			else rv = pm(700) ? N0("b1") : N2("op", Method(N0("v", "a"), "len"), Num(std::to_string(n + 2 + rng.below(4))), "<");
+			if (large && m == "map") rv = N0("v", "x");
+			body.push_back(N1("ret", rv));
+			f.k.push_back(NL("blk", body));
+			std::string rn = "r" + std::to_string(r);
+			Node call = Method(N0("v", "a"), m, { f });
+			if (pm(250) && !large) call = N2("try", NL("blk", { N1("var", call, rn) }), NL("blk", { N1("var", N0("s", "E"), rn) }));
+			else call = N1("var", call, rn);
+			ks.push_back(call);
+			if (large && (m == "map" || m == "filter")) res.push_back(Method(N0("v", rn), "len"));     /* keep the lines short */
+			else res.push_back(N0("v", rn));
+			res.push_back(Method(N0("v", "a"), "len"));
+		}
+		if (large) { res.push_back(N2("idx", N0("v", "a"), Num("0"))); }
+		else res.push_back(N0("v", "a"));
+		ks.push_back(NL("arr", res));
+		return NL("blk", ks);
+	}
+
 	Node Program()
 	{
 		std::vector<Node> ks;
@@ -1245,15 +1570,30 @@ static std::string OpPart(const Case& c)
 	return o;
 }
 
-static std::string Observe(const Case& c, int phase)
+static void CollectLits(const Node& n, std::map<std::string, uint64_t>& out)
+{
+	if (n.tag == "n") { double v = LiteralValue(n.s); uint64_t b; memcpy(&b, &v, 8); out[n.s] = b; }
+	for (auto& c : n.k) CollectLits(c, out);
+}
+
+static std::string LitsOf(const Case& c)
+{
+	std::map<std::string, uint64_t> m;
+	CollectLits(c.ast, m);
+	std::string o;
+	for (auto& kv : m) { char b[24]; snprintf(b, sizeof b, "%016llx", (unsigned long long)kv.second); o += (o.empty() ? "" : ",") + kv.first + ":" + b; }
+	return o.empty() ? "-" : o;
+}
+
+static std::string Observe(const Case& c, int phase, std::string *same = nullptr)
 {
 	if (c.kind == 'X') return RunText(c.text, true);
-	if (phase == 0) return RunText(PrintProgram(c.ast, false), false);
+	if (phase == 0) return RunText(PrintProgram(c.ast, false), false, same);
 	if (phase == 1) return RunText(PrintProgram(c.ast, true), false);
 	return RunText(PrintProgram(c.ast, false), false);
 }
 
-struct ShMem { volatile long index; volatile long done; volatile int phase; char partial[3][1 << 16]; };
+struct ShMem { volatile long index; volatile long done; volatile int phase; char partial[4][1 << 16]; };
 
 /* runs cases[from..) in a forked child; returns the index of the case that killed the child, or -1 */
 template<typename GetCase>
@@ -1272,7 +1612,7 @@ static void RunAll(long total, GetCase getCase)
 				Case c = getCase(i);
 				sh->index = i;
 				sh->phase = 0;
-				sh->partial[0][0] = sh->partial[1][0] = sh->partial[2][0] = 0;
+				sh->partial[0][0] = sh->partial[1][0] = sh->partial[2][0] = sh->partial[3][0] = 0;
 				if (i != confirm) {
 					std::string op = OpPart(c);
 					fputs(op.c_str(), g_Out); fputs(" | ", g_Out); fflush(g_Out);
@@ -1283,14 +1623,15 @@ static void RunAll(long total, GetCase getCase)
 					alarm(0);
 					fputs(r.c_str(), g_Out);
 				} else {
-					std::string r[3];
+					std::string r[3], same;
 					for (int ph = 0; ph < 3; ph++) {
 						sh->phase = ph;
-						r[ph] = Observe(c, ph);
+						r[ph] = Observe(c, ph, ph == 0 ? &same : nullptr);
 						strncpy(sh->partial[ph], r[ph].c_str(), sizeof(sh->partial[ph]) - 1);
+						if (ph == 0) strncpy(sh->partial[3], same.c_str(), sizeof(sh->partial[3]) - 1);
 					}
 					alarm(0);
-					fprintf(g_Out, "min=%s full=%s again=%s", r[0].c_str(), r[1].c_str(), r[2].c_str());
+					fprintf(g_Out, "min=%s full=%s again=%s same=%s lits=%s", r[0].c_str(), r[1].c_str(), r[2].c_str(), same.c_str(), LitsOf(c).c_str());
 				}
 				fputs("\n", g_Out); fflush(g_Out);
 				sh->done = i;
@@ -1320,7 +1661,9 @@ static void RunAll(long total, GetCase getCase)
 		else {
 			std::string r[3];
 			for (int ph = 0; ph < 3; ph++) r[ph] = ph < sh->phase ? std::string(sh->partial[ph]) : what;
-			fprintf(g_Out, "min=%s full=%s again=%s\n", r[0].c_str(), r[1].c_str(), r[2].c_str());
+			/* died in phase 0: either evaluation of the one compiled expression may have been the fatal one */
+			std::string same = sh->phase > 0 ? std::string(sh->partial[3]) : what;
+			fprintf(g_Out, "min=%s full=%s again=%s same=%s lits=-\n", r[0].c_str(), r[1].c_str(), r[2].c_str(), same.c_str());
 		}
 		fflush(g_Out);
 		next = i + 1;
@@ -1383,7 +1726,7 @@ int main(int argc, char **argv)
 		else deep.push_back({ k, 700 });
 	}
 	long nDeep = (long)deep.size();
-	long nTheme = thorough ? 18000 : 3000;   /* catch loops, closures called repeatedly, array subtraction: a third each */
+	long nTheme = thorough ? 30000 : 5000;   /* ten themed families, a tenth each */
 	long total = nProg + nExpr + nChaos + nHostile + nDeep + nTheme;
 	RunAll(total, [&](long i) {
 		Case c;
@@ -1401,7 +1744,11 @@ int main(int argc, char **argv)
 		else {
 			Gen g(s, 0);
 			c.kind = 'P';
-			switch (i % 6) {
+			switch (i % 10) {
+				case 9: c.id = "cbmut" + std::to_string(i); c.ast = g.CbMut(); break;
+				case 6: c.id = "flow" + std::to_string(i); c.ast = g.Flow(); break;
+				case 7: c.id = "freshlit" + std::to_string(i); c.ast = g.FreshLit(); break;
+				case 8: c.id = "literal" + std::to_string(i); c.ast = g.Literals(); break;
 				case 0: c.id = "catchloop" + std::to_string(i); c.ast = g.CatchLoop(); break;
 				case 1: c.id = "scope" + std::to_string(i); c.ast = g.ClosureProgram(); break;
 				case 2: c.id = "arrsub" + std::to_string(i); c.ast = g.ArrSub(); break;
